@@ -347,8 +347,9 @@ Proof.
   destruct (hd COk (i_script i)) eqn:H; simpl; rewrite ?bool_decide_true; done.
 Qed.
 
-(* every invocation that reported success is executed; nothing else is *)
-Theorem e2e_success_is_executed invs i :
+(* [e2e_requests] is a definition (the requests of the Commands left behind): every invocation
+   that reported success contributes its own request to it *)
+Theorem e2e_success_has_its_request invs i :
   In i invs -> r_ok (cli_invoke i) = true ->
   exists c, cli_create (i_verb i) (i_ns i) (i_target i) = [c] /\ In (ctl_req c) (e2e_requests invs).
 Proof.
@@ -417,4 +418,141 @@ Proof.
   unfold cli_create. intros [= <-]. unfold accepts, dcmd_of, dreq. simpl.
   rewrite Z.eqb_refl. split; [done|]. split; [|done].
   intros ctrl Hne _. destruct (verb_kind v =? ctrl) eqn:E; [|done]. apply Z.eqb_eq in E. congruence.
+Qed.
+
+(* ---------- the sequential schedule ends quiescent ---------- *)
+Lemma cstep_other mx c s e w :
+  (match e with CDeliver d | CDelete d _ | CEnqueue d => d end) <> w ->
+  wget (cstep mx c s e) w = wget s w.
+Proof.
+  intros Hne. destruct e as [d|d o|d]; simpl in *.
+  - destruct (wget s d); try done. rewrite wget_wset. destruct (decide (w = d)); congruence.
+  - destruct (wget s d) as [|n|]; try done.
+    destruct o, (present s); try done; try (destruct (budget mx n));
+      rewrite wget_wset; destruct (decide (w = d)); congruence.
+  - destruct (wget s d); try done. rewrite wget_wset. destruct (decide (w = d)); congruence.
+Qed.
+
+Lemma after_delete_enqueue mx c s d o :
+  wget (cstep mx c (cstep mx c s (CDelete d o)) (CEnqueue d)) d <> WDeleted.
+Proof.
+  set (s1 := cstep mx c s (CDelete d o)). simpl.
+  destruct (wget s1 d) eqn:E; try (rewrite E; done).
+  rewrite wget_wset. destruct (decide (d = d)); done.
+Qed.
+
+Lemma NoDup_snoc {A} (l : list A) x : List.NoDup l -> ~ In x l -> List.NoDup (l ++ [x]).
+Proof.
+  induction l as [|y l IH]; intros Hn Hx; simpl.
+  - constructor; [intros []|constructor].
+  - apply List.NoDup_cons_iff in Hn as [Hy Hn]. constructor.
+    + intros Hin. apply in_app_or in Hin as [?|[->|[]]]; [done|]. apply Hx. by left.
+    + apply IH; [done|]. intros ?. apply Hx. by right.
+Qed.
+
+(* every delivery that is not in the queue any more is idle *)
+Definition parked (queue : list nat) (s : sys) : Prop :=
+  List.NoDup queue /\ forall w, ~ In w queue -> wget s w = WIdle.
+
+Lemma seq_run_quiescent mx c : forall fuel queue sched s s' rest,
+  parked queue s -> seq_run mx c fuel queue sched s = Some (s', rest) -> quiescent s'.
+Proof.
+  induction fuel as [|fuel IH]; intros [|d q] sched s s' rest [Hnd Hp] H; cbn [seq_run] in H.
+  - simplify_eq. intros w. apply Hp. intros [].
+  - done.
+  - simplify_eq. intros w. apply Hp. intros [].
+  - set (o := answer (hd 0 sched) (present s)) in *.
+    set (s2 := cstep mx c (cstep mx c s (CDelete d o)) (CEnqueue d)) in *.
+    assert (Hother : forall w, w <> d -> wget s2 w = wget s w).
+    { intros w Hw. unfold s2. rewrite !cstep_other by (simpl; congruence). done. }
+    apply List.NoDup_cons_iff in Hnd as [Hd Hq].
+    destruct (wget s2 d) eqn:E.
+    + eapply IH; [|exact H]. split; [done|]. intros w Hw. destruct (decide (w = d)) as [->|Hne]; [done|].
+      rewrite Hother by done. apply Hp. intros [->|?]; done.
+    + eapply IH; [|exact H]. split.
+      * by apply NoDup_snoc.
+      * intros w Hw. assert (w <> d) by (intros ->; apply Hw, in_or_app; right; by left).
+        rewrite Hother by done. apply Hp. intros [->|?]; [done|]. apply Hw, in_or_app. by left.
+    + exfalso. by apply (after_delete_enqueue mx c s d o).
+Qed.
+
+Lemma deliver_parked mx c : forall ids s,
+  List.NoDup ids -> quiescent s ->
+  parked ids (fold_left (fun s d => cstep mx c s (CDeliver d)) ids s).
+Proof.
+  intros ids s Hnd Hq. split; [done|]. intros w Hw.
+  assert (G : forall ids s, ~ In w ids -> wget (fold_left (fun s d => cstep mx c s (CDeliver d)) ids s) w = wget s w).
+  { clear. induction ids as [|d ids IH]; intros s Hw; cbn [fold_left]; [done|].
+    rewrite IH by (intros ?; apply Hw; by right). apply (cstep_other mx c s (CDeliver d) w). simpl. intros ->. apply Hw. by left. }
+  rewrite G by done. apply Hq.
+Qed.
+
+Lemma seq_phase_quiescent mx c n sched s s' rest :
+  quiescent s -> seq_phase mx c n sched s = Some (s', rest) -> quiescent s'.
+Proof.
+  unfold seq_phase. intros Hq H. eapply seq_run_quiescent; [|exact H].
+  apply deliver_parked; [apply seq_NoDup|done].
+Qed.
+
+(* law 102 (with its quiescence clause on, as the check runs it) accepts what the extracted
+   model prints for selector 2 *)
+Theorem law_amo_accepts_sequential_output mx c b n1 n2 sched s1 r1 s2 r2 :
+  seq_phase mx c n1 sched (init b) = Some (s1, r1) -> seq_phase mx c n2 r1 s1 = Some (s2, r2) ->
+  law_amo mx c b (log s2) (seen s2) (enq s2) (present s2) (retries s2) true = true.
+Proof.
+  intros H1 H2.
+  assert (Q0 : quiescent (init b)) by (intros w; unfold wget; simpl; by rewrite lookup_empty).
+  pose proof (seq_phase_quiescent _ _ _ _ _ _ _ Q0 H1) as Q1.
+  pose proof (seq_phase_quiescent _ _ _ _ _ _ _ Q1 H2) as Q2.
+  destruct (seq_two_phases_reach _ _ _ _ _ _ _ _ _ _ H1 H2) as [evs E]. rewrite E in *.
+  apply law_amo_holds. intros _. exact Q2.
+Qed.
+
+Example seq_example :
+  exists s1 r1 s2 r2,
+    seq_phase 2 ex_cmd 1 [1; 1; 1] (init true) = Some (s1, r1) /\ seq_phase 2 ex_cmd 1 r1 s1 = Some (s2, r2) /\
+    log s2 = [DErr; DErr; DErr; DOk] /\ enq s2 = [(7, 3, 1)] /\ drops s2 = 1%nat /\
+    law_amo 2 ex_cmd true (log s2) (seen s2) (enq s2) (present s2) (retries s2) true = true.
+Proof. do 4 eexists. vm_compute. repeat split. Qed.
+
+(* ---------- what laws 101 and 104 MEAN, and that law 103's e2e half accepts the model ---------- *)
+Theorem law_cli_sound v ns t created :
+  law_cli v ns t created = true ->
+  exists c, created = [c] /\
+    o_kind (c_target c) = verb_kind v /\ o_name (c_target c) = t_name t /\ o_uid (c_target c) = t_uid t /\
+    o_controller (c_target c) = true /\ c_owners c = [c_target c] /\
+    c_action c = verb_action v /\ c_ns c = cmd_ns v ns /\ c_prefix c = (t_name t, verb_action v).
+Proof.
+  unfold law_cli. destruct created as [|c [|]]; try done. intros H.
+  repeat (apply andb_true_iff in H as [H ?]).
+  repeat match goal with X : bool_decide _ = true |- _ => apply bool_decide_eq_true in X end.
+  exists c. repeat split; done.
+Qed.
+
+Theorem law_filter_sound l obs jr qr :
+  law_filter l obs jr qr = true ->
+  length obs = length l /\
+  (forall d n p, In (d, (n, p)) (combine l obs) ->
+     (accepts 1 d = false -> accepts 2 d = false -> n = 0%nat /\ p = true) /\
+     (n <> 0%nat -> accepts 1 d = true \/ accepts 2 d = true) /\ (n <= 1)%nat) /\
+  jr = map (dreq 1) (filter (accepts 1) l) /\ qr = map (dreq 2) (filter (accepts 2) l).
+Proof.
+  unfold law_filter. intros H.
+  apply andb_true_iff in H as [H Hq]. apply andb_true_iff in H as [H Hj].
+  apply andb_true_iff in H as [Hl Hf].
+  apply bool_decide_eq_true in Hl, Hj, Hq. split; [done|]. split; [|done].
+  intros d n p Hin. rewrite forallb_forall in Hf. specialize (Hf _ Hin). simpl in Hf.
+  apply andb_true_iff in Hf as [Hf H3]. apply andb_true_iff in Hf as [H1 H2].
+  apply bool_decide_eq_true in H3. split; [|split; [|done]].
+  - intros A1 A2. rewrite A1, A2 in H1. simpl in H1. apply andb_true_iff in H1 as [Hn Hp].
+    apply bool_decide_eq_true in Hn. done.
+  - intros Hn. rewrite (bool_decide_false (n = 0%nat)) in H2 by done. simpl in H2.
+    apply orb_true_iff in H2. done.
+Qed.
+
+Lemma law_e2e_holds invs :
+  law_e2e (map (fun i => r_new (cli_invoke i)) invs) (e2e_requests invs) = true.
+Proof.
+  unfold law_e2e, e2e_requests. apply bool_decide_eq_true.
+  induction invs as [|i l IH]; simpl; [done|]. by rewrite IH.
 Qed.
